@@ -275,3 +275,76 @@ def no_iteration_over_mutated_collections(ctx):
     (subscription tables, callback lists)"""
     from sa.rules import common
     common.iterate_while_mutating(ctx, {'frappy.protocol.dispatcher', 'frappy.modulebase', 'frappy.logging', 'frappy.io'})
+
+
+def _ends_with_separator(expr):
+    """the prefix expression ends with the ':' that separates module and parameter: f'{x}:' or x + ':'"""
+    if isinstance(expr, ast.JoinedStr) and expr.values:
+        last = expr.values[-1]
+        return isinstance(last, ast.Constant) and isinstance(last.value, str) and last.value.endswith(':')
+    if isinstance(expr, ast.BinOp) and isinstance(expr.op, ast.Add):
+        return isinstance(expr.right, ast.Constant) and isinstance(expr.right.value, str) and expr.right.value.endswith(':')
+    if isinstance(expr, ast.Constant) and isinstance(expr.value, str):
+        return expr.value.endswith(':')
+    return False
+
+
+def check_scope_prefix(ctx):
+    m = ctx.m
+    ci = m.cls(D)
+    n = 0
+    for name, f in sorted(ci.methods.items()):
+        for c in calls_in(f.node):
+            if call_attr(c) != 'startswith' or not c.args:
+                continue
+            loop = next((a for a in ancestors(c) if isinstance(a, ast.For) and '_subscriptions' in src(a.iter)), None)
+            if loop is None:
+                continue
+            n += 1
+            ctx.analysed(f)
+            arg = c.args[0]
+            exprs = origins(arg, f.node) if isinstance(arg, ast.Name) else [arg]
+            ok = all(_ends_with_separator(e) for e in exprs)
+            ctx.check(ok, f'{f.qualname}:scope prefix ends with the separator', c, f'`{src(c)}`',
+                      f'`{src(c)}` selects subscription keys by a bare name prefix: (de)activating `temp` also hits `temp_sample` and '
+                      '`temp_sample:value` - another scope of the same connection silently loses (or gains) its updates', f)
+    return n
+
+
+@rule('C08.R3c', min_instances=1)
+def scope_prefix_has_separator(ctx):
+    """a prefix test over the subscription keys (module scope covers its module:parameter entries) uses `<module>:` with
+    the separator, never the bare name (a module or parameter name may be a prefix of another one)"""
+    if not check_scope_prefix(ctx):
+        raise AnchorMissing('prefix test over _subscriptions not found', violation=f'{D}.unsubscribe:module scope covers its parameters')
+
+
+@rule('C08.R3d', min_instances=2)
+def registration_is_unconditional_and_the_table_is_never_replaced(ctx):
+    """subscribe(): every normal path records the connection under the event name (a narrower activation of an already
+    active connection is still a scope of its own: it must survive the general deactivate); the subscription table
+    object is created once (__init__) and never re-assigned - reset_connection runs on the closing connection's thread
+    without the dispatcher lock, a table rebuilt there loses a key that another connection's activate adds meanwhile"""
+    m = ctx.m
+    sub = m.method(D, 'subscribe', inherited=False)
+    ctx.analysed(sub)
+    cfg = CFG(sub.node, m, sub.module)
+    adds = [i for c in calls_in(sub.node) if call_attr(c) in ('add', 'append') and '_subscriptions' in src(c.func) for i in cfg.node_of(c)]
+    adds += [i for n in body_walk(sub.node) if isinstance(n, ast.Assign) and any('_subscriptions[' in src(t) for t in n.targets) for i in cfg.node_of(n)]
+    ok = bool(adds) and cfg.all_paths_pass([cfg.entry], [cfg.exit], adds, exc=False)
+    ctx.check(ok, f'{sub.qualname}:records the subscription on every path', sub.node, 'no normal path around _subscriptions...add(conn)',
+              'subscribe() can return without recording the connection under the event name: the client gets `active <scope>` '
+              'but the scope does not exist - after a general deactivate (or for a connection that is not generally active) no update of that scope arrives', sub)
+    ci = m.cls(D)
+    n = 0
+    for name, f in sorted(ci.methods.items()):
+        for t, v, s in attr_stores(f.node):
+            if t.attr in ('_subscriptions', '_active_connections') and dotted(t.value) == 'self':
+                n += 1
+                ctx.analysed(f)
+                ctx.check(name == '__init__', f'{f.qualname}:store {t.attr}', s, 'created once in __init__',
+                          f'`{src(s)}` replaces the table while other threads add to / iterate the old object: reset_connection runs on the '
+                          'closing connection\'s own thread without the dispatcher lock, so an activate of another connection that lands between '
+                          'the listing and this assignment is lost - that connection was told `active` and never gets an update', f)
+    if not n:
+        raise AnchorMissing('construction of _subscriptions / _active_connections not found in Dispatcher')
